@@ -11,6 +11,10 @@ from ..core import Broken, Ctx, Violation
 PROP_FILE = "Properties/C11.v"
 
 TRUSTED = [
+    "translator/c11.py, fitness description: the loop over enumerate(zip(processors, self.all_target_data)), its single "
+    "accumulation `acc += self._calculate_fitness(...)`, every `self.<attr> = / += <expr>`, break, continue, return in the "
+    "loop body / else clause / after the loop with its guard, the returned expression, the constant each register is "
+    "initialised with in __init__ -> Gen_C11.src_fdesc",
     "translator/c11.py (fails closed on any other shape): comparisons of _check_out_fit_ranges / FitRange2D.check / "
     "FitRange3D.check incl. the helpers _bounds/_length and the dispatch order of check_fit_ranges -> Gen_C11.src_checker; "
     "which sizes ModelFittingDataTree.__init__ passes as rows/cols/readout_times at its two call sites -> src_calls; where "
@@ -19,6 +23,8 @@ TRUSTED = [
     "correspondence harness: harness/props/c11.py generators (incl. the independent integer computation of the probe's "
     "simulated frames; the Python mirror of the range verdict only steers the generator and names classes), "
     "harness/drivers/c11.py, probes/verif_probes_c11.py, float.as_integer_ratio() -> Q literals",
+    "quick tier: the driver processes run with NUMBA_OPT=0 (numba's LLVM optimisation level; the fitness functions are "
+    "not fast-math, so the floating-point operations and their order are the same); thorough tier: default level",
     "modelled, not verified: numpy/numba elementwise float64 arithmetic is exact on the generated small integers and "
     "dyadics, np.nansum skips NaN, xarray isel = Python slicing (clipping), numpy broadcasting of (1, y, x) against (y, x); "
     "pygmo champion tracking (champion = best individual ever inserted) is a model, observed on real runs only",
@@ -596,6 +602,43 @@ def load_corpus():
     return out
 
 
+def load_corpus_hist():
+    """minimised histories of past misses (`hist` cases of the corpus files)"""
+    out = []
+    if CORPUS.is_dir():
+        for f in sorted(CORPUS.glob("*.json")):
+            for c in json.loads(f.read_text()).get("histories", []):
+                c = unjson_hist(dict(c, flag=None, rel="corpus"))
+                out.append(c)
+    return out
+
+
+def _fr(x):
+    return Fraction(x).limit_denominator(1 << 20) if isinstance(x, float) else x
+
+
+def unjson_fit(case):
+    c = dict(case)
+    if "gain" in c:
+        c["gain"], c["bias"] = _fr(c["gain"]), _fr(c["bias"])
+    c["pattern"] = [[None if v is None else _fr(v) for v in row] for row in c["pattern"]]
+    c["targets"] = [[[[None if v is None else _fr(v) for v in row] for row in pl] for pl in t] for t in c["targets"]]
+    if c.get("offsets") is not None:
+        c["offsets"] = [_fr(v) for v in c["offsets"]]
+    if c.get("weights"):
+        if "scalar" in c["weights"]:
+            c["weights"] = dict(scalar=[_fr(v) for v in c["weights"]["scalar"]])
+        else:
+            c["weights"] = dict(file=[[[[_fr(v) for v in row] for row in pl] for pl in f] for f in c["weights"]["file"]])
+    return c
+
+
+def unjson_hist(case):
+    c = unjson_fit(case)
+    c["ops"] = [dict(o, gain=_fr(o["gain"]), bias=_fr(o["bias"])) if o["op"] != "nop" else dict(o) for o in c["ops"]]
+    return c
+
+
 def gen_fit(r, count, flagged_share=0.25):
     cases = []
     while len(cases) < count:
@@ -667,7 +710,9 @@ def fit_sig(c, o):
         return dict(clause="range_rejected", cls=cls)
     if o.get("o") == "ctor":
         t3d = c["trng"]["d"] == 3
-        return dict(clause="range_accepted", cls="t3d" if t3d else cls, t3d=t3d)
+        # an open result stop on a target that differs in size from the frame is refused for that reason (C11-F6d),
+        # with a 2-D and with a 3-D target range alike
+        return dict(clause="range_accepted", cls="t3d" if (t3d and cls != "open_component") else cls, t3d=t3d)
     return dict(clause="fitness_value", **fit_flags(c))
 
 
@@ -692,6 +737,360 @@ def fit_violation(c, o) -> Violation:
                      what=f"problem.fitness differs from the declared figure of merit ({desc}): implementation {o}", sig=sig)
 
 
+# ------------------------------------------------------------------------------------------ histories on one problem
+
+CAND_G = [0, 1, 2, 3, Fraction(1, 2), Fraction(3, 2)]
+CAND_B = [0, 0, 1, -2, Fraction(1, 4)]
+
+
+def hist_conf_truth(r):
+    """a plain accepted configuration with 2..3 targets (sometimes 1) lying near the frames of a 'true' vector, so that
+    a clearly best candidate exists: the class of changes that remember earlier evaluations shows right after it"""
+    rows, cols = r.randrange(1, 5), r.randrange(1, 5)
+    multi = r.random() < 0.3
+    steps = r.randrange(2, 4) if multi else 1
+    nt = r.choice([2, 2, 2, 3, 3, 1])
+    pattern = [[r.randrange(1, 10) for _ in range(cols)] for _ in range(rows)]
+    offsets = [r.randrange(0, 12) for _ in range(nt)]
+    if nt == 1 and r.random() < 0.5:
+        offsets = None
+    g, b = r.choice(CAND_G[1:]), r.choice(CAND_B)
+    exact = r.random() < 0.5
+    targets = [[[[g * v * (t + 1) + (offsets[k] if offsets else 0) + b + (0 if exact else r.choice([-1, 0, 0, 1]))
+                  for v in row] for row in pattern] for t in range(steps)] for k in range(nt)]
+    tr, tc = sub_range(r, rows), sub_range(r, cols)
+    ff = r.choice(["abs", "abs", "sq", "chi"])
+    q = r.random()
+    otime = (None, None) if q < 0.5 else (0, steps)
+    trng = rng2(tr, tc)
+    if multi and r.random() < 0.3:
+        tm = sub_range(r, steps)
+        trng, otime = rng3(tm, tr, tc), tm
+    weights = None
+    k = r.random()
+    wpool = [1, 2, 4, Fraction(1, 2)] if ff == "chi" else [1, 2, 3, 4, Fraction(1, 2)]
+    if k < 0.3:
+        weights = dict(scalar=[r.choice(wpool) for _ in range(nt)])
+    elif k < 0.5:
+        weights = dict(file=[[[[r.choice(wpool) for _ in range(cols)] for _ in range(rows)] for _ in range(steps)]
+                             for _ in range(nt)])
+    c = dict(kind="hist", ff=ff, free=r.randrange(0, 2), multi=multi, steps=steps, pattern=pattern, offsets=offsets,
+             targets=targets, trng=trng, orng=rng3(otime, tr, tc), weights=weights, bypass=False, flag=None, rel="truth")
+    return c, (g, b)
+
+
+def hist_conf_any(r):
+    """any configuration of the problem.fitness stream that the specification accepts and that lies outside the classes
+    of the open findings (targets smaller / larger than the frame, shifted and open ranges, 3-D target ranges ...)"""
+    for _ in range(400):
+        c = gen_fit_one(r, 0.0)
+        c["gain"], c["bias"] = 1, 0
+        if py_verdict(c)[0] != "accept" or known_classes(c) or c["bypass"]:
+            continue
+        if len(c["targets"]) < 2 and r.random() < 0.8:
+            continue
+        c = dict(c, kind="hist", rel="any")
+        del c["gain"], c["bias"]
+        return c, (r.choice(CAND_G), r.choice(CAND_B))
+    return hist_conf_truth(r)
+
+
+def gen_hist_one(r, max_len):
+    c, good = hist_conf_truth(r) if r.random() < 0.55 else hist_conf_any(r)
+    n = r.randrange(4, max_len + 1)
+    ids, ops = {}, []
+
+    def vec(g, b):
+        return dict(gain=g, bias=b, id=ids.setdefault((g, b), len(ids)))
+    for i in range(n):
+        k = r.random()
+        kind = "fit" if (k < 0.64 or i == 0) else ("fit_copy" if k < 0.82 else "nop")
+        if kind == "nop":
+            ops.append(dict(op="nop", which=r.randrange(0, 4)))
+            continue
+        q = r.random()
+        if i == 0 and q < 0.75:
+            g, b = good                                           # the good candidate first
+        elif ids and q < 0.35:
+            g, b = r.choice(sorted(ids, key=str))                 # a vector evaluated before, again
+        elif ids and q < 0.45:
+            g0, b0 = r.choice(sorted(ids, key=str))
+            g, b = g0 + Fraction(1, 1024), b0                     # a vector very close to an earlier one
+        elif q < 0.55:
+            g, b = good
+        else:
+            g, b = r.choice(CAND_G), r.choice(CAND_B)
+        ops.append(dict(op=kind, **vec(g, b)))
+    # end with a second evaluation of the first vector on the object itself
+    if r.random() < 0.5:
+        first = next(o for o in ops if o["op"] != "nop")
+        ops.append(dict(op="fit", gain=first["gain"], bias=first["bias"], id=first["id"]))
+    c["ops"] = ops
+    return c
+
+
+BIG = 1 << 36
+
+
+def bigify(c):
+    """the same configuration with every target value raised by 2^36 and absolute residuals.  Still exact in binary64:
+    sums stay below 2^36 * 4 * 144 < 2^46 and carry at most 3 fractional bits (gains in halves - the nearly equal vectors
+    of a history are rounded to halves -, biases in quarters, weights down to 1/2)."""
+    d = dict(c, ff="abs")
+    d["targets"] = [[[[None if v is None else v + BIG for v in row] for row in pl] for pl in t] for t in c["targets"]]
+    if "ops" in c:
+        ids, ops = {}, []
+        for o in c["ops"]:
+            if o["op"] == "nop":
+                ops.append(o)
+                continue
+            g = Fraction(int(Fraction(o["gain"]) * 2), 2)
+            ops.append(dict(o, gain=g, id=ids.setdefault((g, o["bias"]), len(ids))))
+        d["ops"] = ops
+    return d
+
+
+def gen_hist_exhaustive(max_len, copies, nts=(2, 3)):
+    """EVERY history of length <= max_len over three decision vectors (the exact optimum, a near one, a far one) on fixed
+    plain configurations with 2 and 3 targets; with `copies` each evaluation is made on the object or on a copy of it"""
+    out = []
+    pattern = [[1, 2], [3, 5]]
+    vecs = [(2, 1), (Fraction(3, 2), 1), (0, -2)]
+    kinds = ["fit", "fit_copy"] if copies else ["fit"]
+    for nt in nts:
+        offsets = [3, 0, 7][:nt]
+        targets = [[[[2 * v + offsets[k] + 1 for v in row] for row in pattern]] for k in range(nt)]
+        base = dict(kind="hist", ff="abs", free=0, multi=False, steps=1, pattern=pattern, offsets=offsets, targets=targets,
+                    trng=rng2((0, 2), (0, 2)), orng=rng3((None, None), (0, 2), (0, 2)), weights=None, bypass=False,
+                    flag=None, rel="exhaustive")
+        for n in range(2, max_len + 1):
+            for seq in itertools.product([(k, i) for k in kinds for i in range(len(vecs))], repeat=n):
+                if not any(k == "fit" for k, _ in seq[:-1]):
+                    continue            # nothing was evaluated on the object itself before the last step
+                ids, ops = {}, []
+                for k, i in seq:
+                    ops.append(dict(op=k, gain=vecs[i][0], bias=vecs[i][1], id=ids.setdefault(i, len(ids))))
+                out.append(dict(base, ops=ops))
+    return out
+
+
+def gen_hist(r, count, max_len):
+    return [gen_hist_one(r, max_len) for _ in range(count)]
+
+
+def hist_payload(c):
+    return jsonable({k: v for k, v in c.items() if k not in ("flag", "rel")})
+
+
+def hist_fit_case(c, op):
+    """the single evaluation `op` of history `c` as a plain problem.fitness case"""
+    d = {k: v for k, v in c.items() if k != "ops"}
+    return dict(d, kind="fit", gain=op["gain"], bias=op["bias"])
+
+
+def hist_obs_list(c, o):
+    """-> Gallina literals of the implementation's observations, one per operation (None: unusable)"""
+    if o.get("o") == "ctor":
+        return ["None" if op["op"] == "nop" else "(Some OCtor)" for op in c["ops"]]
+    out = []
+    for op, ob in zip(c["ops"], o["obs"]):
+        if ob["o"] == "nop":
+            out.append("None")
+        elif ob["o"] in ("nop_raise", "copy_raise"):
+            out.append("(Some ORaise)" if op["op"] != "nop" else "(Some OUndef)")
+        else:
+            lit = c_obs(ob)
+            if lit is None:
+                return None
+            out.append(f"(Some {lit})")
+    return out
+
+
+def emit_hist(pairs):
+    defs, cases = [], []
+    for n, (c, o) in enumerate(pairs):
+        seen = {}
+        ops = []
+        for op in c["ops"]:
+            if op["op"] == "nop":
+                ops.append("HNop")
+                continue
+            if op["id"] not in seen:
+                nm = f"v{n}_{op['id']}"
+                frames = sim_frames(hist_fit_case(c, op))
+                defs.append(f"Definition {nm} : hx := ({op['id']}%nat, {core.clist(c_frame3(f) for f in frames)}).")
+                seen[op["id"]] = nm
+            ops.append(f"({'HFit' if op['op'] == 'fit' else 'HFitCopy'} {seen[op['id']]})")
+        obs = hist_obs_list(c, o)
+        same = "true" if o.get("o") == "ctor" or o.get("same") else "false"
+        cases.append(f"{{| hc_c := {c_fconf(c)};\n     hc_ops := {core.clist(ops)};\n     hc_obs := {core.clist(obs)};\n"
+                     f"     hc_same := {same} |}}")
+    body = ";\n  ".join(cases)
+    return (HEAD.replace("Model.Fitness.", "Model.Fitness Model.FitnessHist.") + "\n".join(defs)
+            + f"\nDefinition cases : list hist_case := [\n  {body}\n].\n"
+            "Eval vm_compute in hist_mismatches src_fdesc src_checker src_calls src_weights cases.\n"
+            "Eval vm_compute in hist_violations cases.\n")
+
+
+def run_hist_files(ctx, pairs, tag, per=12):
+    """-> (mismatching (pair, step), violating (pair, step)) judged inside Coq"""
+    files, chunks = {}, {}
+    for k in range(0, len(pairs), per):
+        nm = f"{tag}_{k // per:03d}"
+        files[nm] = emit_hist(pairs[k:k + per])
+        chunks[nm] = pairs[k:k + per]
+    res = core.coq_eval_many(ctx, files, timeout=900, par=8)
+    mism, viol = [], []
+    for name in sorted(files):
+        ok, evals, se = res[name]
+        if not ok or len(evals) != 2:
+            ctx.broken.append(Broken("correspondence", f"case file {name}.v did not evaluate", core.tail(se, 15)))
+            continue
+        mism += [(chunks[name][code // 1000], code % 1000) for code in core.parse_int_list(evals[0])]
+        viol += [(chunks[name][code // 1000], code % 1000) for code in core.parse_int_list(evals[1])]
+    return mism, viol
+
+
+def run_hist_cases(ctx, cases, tag):
+    payloads = [hist_payload(c) for c in cases]
+    obs = driver(ctx, payloads, 6)
+    bad = [i for i, o in enumerate(obs) if "crash" in o]
+    if bad:
+        ctx.log(f"{tag}: {len(bad)} payloads lost to crashed workers; retrying")
+        again = core.run_driver(ctx, "c11", [payloads[i] for i in bad], workers=2, timeout=1500)
+        for i, o in zip(bad, again):
+            obs[i] = o
+    pairs = []
+    for c, o in zip(cases, obs):
+        usable = o.get("o") in ("ok", "ctor") and (o.get("o") == "ctor" or len(o["obs"]) == len(c["ops"])) \
+            and hist_obs_list(c, o) is not None
+        if not usable:
+            ctx.broken.append(Broken("correspondence", f"implementation driver failed ({tag})", str(o)[:600], hist_payload(c)))
+            continue
+        pairs.append((c, o))
+    mism, viol = run_hist_files(ctx, pairs, tag)
+    return pairs, mism, viol
+
+
+def hist_class(c, o, step):
+    """names the way a violating step of a history relates to what came before (naming only)"""
+    if step == 999:
+        return "data_changed"
+    ops = c["ops"]
+    earlier_fit = [j for j in range(step) if ops[j]["op"] == "fit"]
+    if not earlier_fit:
+        return "fresh"
+    if o.get("o") == "ok":
+        me = o["obs"][step]
+        for j in range(step):
+            if ops[j]["op"] != "nop" and ops[j]["id"] == ops[step]["id"] and o["obs"][j] != me:
+                return "same_vector_other_value"
+    return "after_other_evaluations"
+
+
+def hist_violation(c, o, step) -> Violation:
+    cls = hist_class(c, o, step)
+    case = hist_payload(c)
+    desc = (f"ff={c['ff']}, multi={c['multi']}, targets={len(c['targets'])} of shape {tshape_of(c)}, offsets={c['offsets']}, "
+            f"weights={'yes' if c['weights'] else 'no'}, trng={c['trng']}, orng={c['orng']}")
+    if cls == "data_changed":
+        return Violation(clause="fitness_history", case=case, observed=o,
+                         expected="target data, weights and processors of the problem are the same before and after",
+                         what=f"evaluating fitness changed the data of the problem object ({desc})",
+                         sig=dict(clause="fitness_history", cls=cls))
+    op = c["ops"][step]
+    seq = [(f"{x['op']}(gain={float(x['gain'])}, bias={float(x['bias'])})" if x["op"] != "nop" else "other call")
+           for x in c["ops"][:step + 1]]
+    got = o["obs"][step] if o.get("o") == "ok" else o
+    return Violation(clause="fitness_history", case=case, observed=dict(step=step, got=got, all=o.get("obs")),
+                     expected="the declared figure of merit of this decision vector (what a freshly built problem returns), "
+                              "whatever the same problem object evaluated before",
+                     what=f"problem.fitness depends on the history of the problem object ({cls}): step {step} of "
+                          f"{' ; '.join(seq)} returns {got} ({desc})",
+                     sig=dict(clause="fitness_history", cls=cls))
+
+
+def hist_size(c):
+    return (len(c["ops"]), len(json.dumps(hist_payload(c))))
+
+
+def shrink_hist(ctx, c, step):
+    """smaller histories that may show the same thing: [one earlier evaluation, the failing one], the prefix without
+    copies and other calls, the plain prefix.  Judged again by implementation + Coq; the smallest still violating wins."""
+    ops = c["ops"]
+    if step == 999:
+        return None
+    cands = []
+    for j in range(step):
+        if ops[j]["op"] == "fit":
+            cands.append([ops[j], ops[step]])
+    cands.append([x for x in ops[:step] if x["op"] == "fit"] + [ops[step]])
+    cands.append(ops[:step + 1])
+    cs = []
+    for cand in cands:
+        ids = {}
+        new = []
+        for x in cand:
+            new.append(dict(x, id=ids.setdefault(x["id"], len(ids))) if x["op"] != "nop" else x)
+        cs.append(dict(c, ops=new))
+    pairs, _, viol = run_hist_cases(ctx, cs, "hshrink")
+    good = [(cc, oo, st) for (cc, oo), st in viol if st == len(cc["ops"]) - 1]
+    if not good:
+        return None
+    return min(good, key=lambda t: hist_size(t[0]))
+
+
+def leg_hist(ctx, cases, tag="hist", shrink=True):
+    pairs, mism, viol = run_hist_cases(ctx, cases, tag)
+    for c, o in pairs:
+        ctx.count("history_cases")
+        nfit = sum(1 for x in c["ops"] if x["op"] != "nop")
+        ctx.count("evaluations", nfit)
+        ctx.count("history_evaluations", nfit)
+        ctx.dist("hist_targets", len(c["targets"]))
+        ctx.dist("hist_length", len(c["ops"]))
+        ctx.dist("hist_conf", c.get("rel", "replay"))
+        for x in c["ops"]:
+            ctx.dist("hist_op", x["op"])
+        reps = len([x for x in c["ops"] if x["op"] != "nop"]) - len({x["id"] for x in c["ops"] if x["op"] != "nop"})
+        ctx.dist("hist_repeated_vectors", min(reps, 3))
+    for (c, o), step in mism:
+        ctx.broken.append(Broken("correspondence", "Model/FitnessHist.v run_hist vs a history of ModelFittingDataTree.fitness calls",
+                                 f"model and implementation differ at step {step}: {o.get('obs', o)} on {hist_payload(c)}"[:1500],
+                                 dict(case=hist_payload(c), observed=o)))
+    best = {}
+    # a history whose FIRST evaluation (fresh object) is already wrong says nothing about history dependence: it is
+    # reported as the plain problem.fitness violation it is, its later steps are not reported separately
+    fresh_bad = {id(c) for (c, o), step in viol if hist_class(c, o, step) == "fresh"}
+    for (c, o), step in viol:
+        cls = hist_class(c, o, step)
+        if id(c) in fresh_bad and cls != "fresh":
+            continue
+        if cls == "fresh":
+            # the very first evaluation on the new object is already wrong: a plain problem.fitness violation
+            fc = hist_fit_case(c, c["ops"][step])
+            fo = o["obs"][step] if o.get("o") == "ok" else o
+            key = "fresh" + json.dumps(fit_sig(fc, fo), sort_keys=True)
+            if key not in best:
+                best[key] = ("fit", fc, fo, 0)
+            continue
+        size = (step if step != 999 else 0, ) + hist_size(c)
+        if cls not in best or size < best[cls][3]:
+            best[cls] = ("hist", c, o, size, step)
+    for key, item in best.items():
+        if item[0] == "fit":
+            ctx.violations.append(fit_violation(dict(item[1], flag=None, rel="hist"), item[2]))
+            continue
+        _, c, o, _, step = item
+        if shrink:
+            sm = shrink_hist(ctx, c, step)
+            if sm is not None:
+                c, o, step = sm
+        ctx.violations.append(hist_violation(c, o, step))
+    ctx.count("history_spec_violations", len(viol))
+    return pairs, mism, viol
+
+
 # ------------------------------------------------------------------------------------------ calibration runs
 
 
@@ -701,7 +1100,9 @@ def gen_calib(r, count, with_single, quick=False):
         rows, cols = r.randrange(2, 4), r.randrange(2, 4)
         multi = i % 3 == 2 or (quick and i == 1)
         steps = 2 if multi else 1
-        nt = r.choice([1, 2])
+        nt = r.choice([1, 2, 3])
+        if i == 0:
+            nt = max(nt, 2)            # the first run always has several targets and reports its whole populations
         pattern = [[r.randrange(1, 9) for _ in range(cols)] for _ in range(rows)]
         offsets = [r.randrange(0, 6) for _ in range(nt)] if nt > 1 or r.random() < 0.5 else None
         g, b = r.randrange(1, 6), r.randrange(-2, 3)
@@ -719,7 +1120,7 @@ def gen_calib(r, count, with_single, quick=False):
                           offsets=offsets, targets=targets, trng=rng2(tr, tc),
                           orng=rng3((0, steps) if (multi and i % 2 == 0) else (None, None), orow, ocol),
                           weights=weights, bypass=False, seed=r.randrange(1, 10000), islands=2, pop=7, generations=2,
-                          evolutions=r.choice([3, 4, 5]), num_best=r.choice([None, 3])))
+                          evolutions=r.choice([3, 4, 5]), num_best=7 if i == 0 else r.choice([None, 3, 7])))
     if with_single:
         c = dict(cases[0])
         c["single_param"] = True
@@ -735,7 +1136,46 @@ def emit_champ(rows):
             "Eval vm_compute in @nil Z.\nEval vm_compute in champ_violations cases.\n")
 
 
+def emit_indiv(rows):
+    body = ";\n  ".join(f"{{| iv_reported := (Qmake ({a[0]}) {a[1]}); iv_fresh := (Qmake ({b[0]}) {b[1]}) |}}" for a, b in rows)
+    return (HEAD.replace("Model.Fitness.", "Model.Fitness Model.FitnessHist.")
+            + f"Definition cases : list indiv_case := [\n  {body}\n].\n"
+            "Eval vm_compute in @nil Z.\nEval vm_compute in indiv_violations cases.\n")
+
+
 # ------------------------------------------------------------------------------------------ legs
+
+
+# One pool of driver processes serves every leg: each process pays the interpreter start, the imports and numba's
+# compilation of the three fitness functions (per array rank) once, instead of once per leg.
+_PREFETCHED: dict[str, dict] = {}
+
+
+def _key(payload) -> str:
+    return json.dumps(payload, sort_keys=True)
+
+
+def prefetch(ctx, payloads, workers=6):
+    keys = list(dict.fromkeys(_key(p) for p in payloads))
+    keys = [k for k in keys if k not in _PREFETCHED]
+    if not keys:
+        return
+    __import__("random").Random(0).shuffle(keys)           # every worker gets the same mix of cheap and expensive payloads
+    obs = core.run_driver(ctx, "c11", [json.loads(k) for k in keys], workers=workers, timeout=1500)
+    for k, o in zip(keys, obs):
+        if "crash" not in o:
+            _PREFETCHED[k] = o
+
+
+def driver(ctx, payloads, workers, timeout=900):
+    """results of the implementation driver, from the prefetched pool where available"""
+    keys = [_key(p) for p in payloads]
+    missing = list(dict.fromkeys(k for k in keys if k not in _PREFETCHED))
+    got = {}
+    if missing:
+        obs = core.run_driver(ctx, "c11", [json.loads(k) for k in missing], workers=workers, timeout=timeout)
+        got = dict(zip(missing, obs))
+    return [_PREFETCHED[k] if k in _PREFETCHED else got[k] for k in keys]
 
 
 def eval_files(ctx, files, chunks, label):
@@ -755,7 +1195,7 @@ def eval_files(ctx, files, chunks, label):
 
 def run_kind(ctx, cases, payload_of, emit, tag, per, workers=8):
     payloads = [payload_of(c) for c in cases]
-    obs = core.run_driver(ctx, "c11", payloads, workers=workers)
+    obs = driver(ctx, payloads, workers)
     bad = [i for i, o in enumerate(obs) if "crash" in o]
     if bad:          # a worker died (overloaded machine): retry those payloads once, with fewer workers
         ctx.log(f"{tag}: {len(bad)} payloads lost to crashed workers ({str(obs[bad[0]])[:300]}); retrying")
@@ -811,9 +1251,12 @@ def leg_ff(ctx, cases, tag="ff"):
     return pairs, mism
 
 
+def fit_payload(c):
+    return jsonable({k: v for k, v in c.items() if k not in ("flag", "rel")})
+
+
 def leg_fit(ctx, cases, tag="fit"):
-    pairs, mism, viol = run_kind(ctx, cases, lambda c: jsonable({k: v for k, v in c.items() if k not in ("flag", "rel")}),
-                                 emit_fit, tag, 40, workers=6)
+    pairs, mism, viol = run_kind(ctx, cases, fit_payload, emit_fit, tag, 40, workers=6)
     for c, o in pairs:
         ctx.count("evaluations")
         ctx.count("problem_fitness_cases")
@@ -847,8 +1290,15 @@ def leg_fit(ctx, cases, tag="fit"):
 
 
 def leg_calib(ctx, cases):
-    obs = core.run_driver(ctx, "c11", [jsonable(c) for c in cases], workers=min(6, max(1, len(cases))), timeout=1200)
+    obs = driver(ctx, [jsonable(c) for c in cases], min(6, max(1, len(cases))), timeout=1200)
+    bad = [i for i, o in enumerate(obs) if "crash" in o]
+    if bad:
+        ctx.log(f"calibration: {len(bad)} payloads lost to crashed workers ({str(obs[bad[0]])[:300]}); retrying")
+        again = core.run_driver(ctx, "c11", [jsonable(cases[i]) for i in bad], workers=2, timeout=1500)
+        for i, o in zip(bad, again):
+            obs[i] = o
     rows, owner = [], []
+    indiv_rows = []
     for c, o in zip(cases, obs):
         jc = jsonable(c)
         if "crash" in o or "driver_error" in o:
@@ -884,6 +1334,16 @@ def leg_calib(ctx, cases):
             else:
                 ctx.broken.append(Broken("correspondence", "run_evolve raised", str(o)[:800], jc))
             continue
+        if "indiv_error" in o:
+            ctx.broken.append(Broken("correspondence", "reported individuals could not be re-evaluated on a fresh problem",
+                                     str(o["indiv_error"])[:600], jc))
+        for iv in o.get("indiv", []):
+            ctx.count("reported_individuals_reevaluated")
+            ctx.dist("reported_individual", iv["kind"])
+            if iv["reported"]["o"] == "val" and iv["fresh"]["o"] == "val":
+                indiv_rows.append((c, iv))
+            elif iv["reported"]["o"] != iv["fresh"]["o"]:
+                ctx.broken.append(Broken("correspondence", "reported individual: non-finite fitness", str(iv)[:600], jc))
         for i, seq in enumerate(o["fitness"]):
             rows.append((seq, o["reeval"][i], o["recomp"][i]))
             owner.append((c, o, i, "parameters"))
@@ -903,6 +1363,7 @@ def leg_calib(ctx, cases):
                 expected="/simulated/<bucket> of the returned DataTree can be computed and reproduces the champion fitness",
                 what=f"the returned /simulated data cannot be computed: {o['sim']['cls']}: {o['sim']['msg'][:120]}",
                 sig=dict(clause="resimulation", cls="simulated_not_computable", exc=o["sim"]["cls"])))
+    judge_individuals(ctx, indiv_rows)
     if not rows:
         return
     res = core.coq_eval(ctx, "champ_000", emit_champ([(s, re, rc) for s, re, rc in rows]))
@@ -925,8 +1386,35 @@ def leg_calib(ctx, cases):
     ctx.cov["champion_islands_checked"] = len(rows)
 
 
-CLAUSE_ORDER = ["checker_sound", "checker_complete", "fitness_value", "champion", "resimulation", "range_rejected",
-                "range_accepted"]
+def judge_individuals(ctx, indiv_rows):
+    """every individual a calibration reports carries the fitness a fresh problem returns for its vector (exactly: the
+    same floating-point computation) — judged inside Coq"""
+    if not indiv_rows:
+        return
+    ok, evals, se = core.coq_eval(ctx, "indiv_000", emit_indiv([(iv["reported"]["q"], iv["fresh"]["q"]) for _, iv in indiv_rows]))
+    if not ok or len(evals) != 2:
+        ctx.broken.append(Broken("correspondence", "case file indiv_000.v did not evaluate", core.tail(se, 15)))
+        return
+    bad = [indiv_rows[i] for i in core.parse_int_list(evals[1])]
+    ctx.cov["reported_individuals_checked"] = ctx.cov.get("reported_individuals_checked", 0) + len(indiv_rows)
+    first = {}
+    for c, iv in bad:
+        first.setdefault(iv["kind"], (c, iv, sum(1 for cc, x in bad if x["kind"] == iv["kind"] and cc is c)))
+    for kind, (c, iv, n) in first.items():
+        def fl(v):
+            return int(v["q"][0]) / int(v["q"][1])
+        ctx.violations.append(Violation(
+            clause="reported_individual", case=jsonable(c), observed=dict(individual=iv, wrong_in_this_run=n),
+            expected="the fitness attached to a reported individual is the figure of merit of its decision vector "
+                     "(what a freshly built problem returns for it)",
+            what=f"calibration result: {kind} individual (island {iv['island']}, evolution {iv['evolution']}) with decision "
+                 f"{iv['x']} is reported with fitness {fl(iv['reported'])} but a fresh problem returns {fl(iv['fresh'])} "
+                 f"({n} such individual(s) in this run; targets={len(c['targets'])})",
+            sig=dict(clause="reported_individual", cls=kind)))
+
+
+CLAUSE_ORDER = ["checker_sound", "checker_complete", "fitness_value", "fitness_history", "champion", "reported_individual",
+                "resimulation", "range_rejected", "range_accepted"]
 
 
 def order_violations(ctx: Ctx):
@@ -965,6 +1453,11 @@ def run(ctx: Ctx):
         "one rounding of the final division (2^-52 relative); the simulated frames come from the probe model "
         "verif_probes_c11.pattern whose formula the harness recomputes independently",
         "champion theorems are about the model champ' = min(champ, best of the evolution); pygmo itself is observed only",
+        "history theorems: the state of the problem object is the list of scalar attributes (registers) the translator finds "
+        "written by fitness; the translator refuses (fails closed on) every other way fitness or the methods it calls could "
+        "keep state: writes to other attributes, item / attribute stores and in-place operations on objects that may belong "
+        "to the problem, mutating method calls on attributes, global / nonlocal, decorators, nested definitions; the "
+        "pipelines are a function `simulate` of the decision vector (true of the probe model)",
     ]
     gen = {}
     try:
@@ -976,38 +1469,60 @@ def run(ctx: Ctx):
     core.proof_leg(ctx, gen, PROP_FILE)
     ctx.log(f"proof leg done t={__import__('time').time() - ctx.t0:.0f}s")
 
-    # 1. range checker
+    # numba compiles the three fitness functions in every driver process (no on-disk cache in the source): in the quick
+    # tier at LLVM optimisation level 0 (about 2 s instead of 13 s per process; no fast-math either way, so the same
+    # IEEE operations in the same order), in the thorough tier and in replays at the default level
+    if ctx.quick:
+        __import__("os").environ.setdefault("NUMBA_OPT", "0")
+    # cases of every leg (one PRNG stream per leg), then ONE pool of implementation processes for all of them
     r = ctx.rng("ck")
     ck_cases = ck_exhaustive([1, 2] if ctx.quick else [1, 2, 3, 4, 5])
     ck_cases += ck_random(r, ctx.budget(400, 4000), malformed=False)
     ck_cases += ck_random(r, ctx.budget(250, 2000), malformed=True)
-    ck_pairs, _, _ = leg_ck(ctx, ck_cases)
-    ctx.log(f"checker leg done ({len(ck_pairs)} cases) t={__import__('time').time() - ctx.t0:.0f}s")
-    ctx.cov["exhaustive"] = ("check_fit_ranges: every (target slice, result slice) pair per dimension with bounds in "
-                             f"{{None, 0..n+1}} for n <= {2 if ctx.quick else 5}")
-
-    # 2. the three functions, then problem.fitness
     ff_cases = gen_ff(ctx.rng("ff"), ctx.budget(300, 1500))
-    leg_ff(ctx, ff_cases)
-    ctx.log(f"fitness-function leg done t={__import__('time').time() - ctx.t0:.0f}s")
     fit_cases = load_corpus()
     ctx.cov["corpus_cases"] = len(fit_cases)
     fit_cases += gen_fit_sizes(ctx.rng("fitsizes"), ctx.quick) + gen_fit(ctx.rng("fit"), ctx.budget(72, 480))
+    hist_cases = load_corpus_hist()
+    ctx.cov["corpus_histories"] = len(hist_cases)
+    hist_cases += gen_hist_exhaustive(2, False) if ctx.quick else gen_hist_exhaustive(3, True)
+    hist_cases += gen_hist(ctx.rng("hist"), ctx.budget(30, 240), 9 if ctx.quick else 14)
+    calib_cases = gen_calib(ctx.rng("calib"), ctx.budget(2, 10), with_single=True, quick=ctx.quick)
+    prefetch(ctx, ck_cases + [ff_payload(c) for c in ff_cases] + [fit_payload(c) for c in fit_cases]
+             + [hist_payload(c) for c in hist_cases] + [jsonable(c) for c in calib_cases], workers=ctx.budget(6, 8))
+    ctx.log(f"implementation runs done ({len(_PREFETCHED)} payloads) t={__import__('time').time() - ctx.t0:.0f}s")
+
+    # 1. range checker
+    ck_pairs, _, _ = leg_ck(ctx, ck_cases)
+    ctx.log(f"checker leg done ({len(ck_pairs)} cases) t={__import__('time').time() - ctx.t0:.0f}s")
+    ctx.cov["exhaustive"] = ("check_fit_ranges: every (target slice, result slice) pair per dimension with bounds in "
+                             f"{{None, 0..n+1}} for n <= {2 if ctx.quick else 5}; every history of "
+                             + ("2 evaluations" if ctx.quick else "<= 3 evaluations (on the object or on a copy)")
+                             + " over three decision vectors on one problem object with 2 and with 3 targets")
+
+    # 2. the three functions, then problem.fitness
+    leg_ff(ctx, ff_cases)
+    ctx.log(f"fitness-function leg done t={__import__('time').time() - ctx.t0:.0f}s")
     fit_pairs, _, _ = leg_fit(ctx, fit_cases)
     ctx.log(f"problem.fitness leg done ({len(fit_pairs)} cases) t={__import__('time').time() - ctx.t0:.0f}s")
 
+    # 2b. histories of evaluations on one problem object
+    hist_pairs, _, _ = leg_hist(ctx, hist_cases)
+    ctx.log(f"history leg done ({len(hist_pairs)} histories) t={__import__('time').time() - ctx.t0:.0f}s")
+
     # 3. real calibrations
-    calib_cases = gen_calib(ctx.rng("calib"), ctx.budget(2, 10), with_single=True, quick=ctx.quick)
     leg_calib(ctx, calib_cases)
     ctx.log(f"calibration leg done t={__import__('time').time() - ctx.t0:.0f}s")
 
     distinct = {json.dumps(c, sort_keys=True) for c, _ in ck_pairs if c["t"] and c["o"] and c["t"] != c["o"]}
     distinct |= {json.dumps(jsonable(c), sort_keys=True) for c, _ in fit_pairs
                  if len(c["targets"]) > 1 or c["weights"] or c["bypass"]}
+    distinct |= {json.dumps(hist_payload(c), sort_keys=True) for c, _ in hist_pairs
+                 if sum(1 for x in c["ops"] if x["op"] == "fit") >= 2}
     ctx.cov["distinct_nontrivial"] = len(distinct)
     ctx.cov["rule"] = ("checker cases whose target and result ranges differ; problem.fitness cases with more than one "
-                       "target, or weights, or a shifted result range")
-    ctx.cov["traces_validated_against_impl"] = len(ck_pairs) + len(fit_pairs)
+                       "target, or weights, or a shifted result range; histories with at least two evaluations on the object")
+    ctx.cov["traces_validated_against_impl"] = len(ck_pairs) + len(fit_pairs) + len(hist_pairs)
     ctx.cov["disagreements_checked"] = sum(1 for b in ctx.broken if b.kind == "correspondence")
     for c, o in fit_pairs[:3]:
         ctx.sample(dict(ff=c["ff"], multi=c["multi"], trng=c["trng"], orng=c["orng"], offsets=c["offsets"],
@@ -1015,7 +1530,8 @@ def run(ctx: Ctx):
                         value=(int(o["q"][0]) / int(o["q"][1]) if o.get("o") == "val" else None)))
     for c, o in ck_pairs[:2]:
         ctx.sample(dict(checker=c, observed=o))
-    if ctx.broken and not new_violations(ctx):
+    # VERIF_C11_SEARCH=1 runs the deeper search unconditionally (used to check that it raises no alarm on a sound tree)
+    if (ctx.broken and not new_violations(ctx)) or __import__("os").environ.get("VERIF_C11_SEARCH"):
         search(ctx)
     order_violations(ctx)
 
@@ -1028,6 +1544,15 @@ def search(ctx: Ctx):
     if not new_violations(ctx):
         leg_fit(ctx, gen_fit_sizes(ctx.rng("sfitsizes"), quick=False) + gen_fit(ctx.rng("sfit"), 240, flagged_share=0.1),
                 tag="sfit")
+    if not new_violations(ctx):
+        leg_hist(ctx, gen_hist(ctx.rng("shist"), 120, 14), tag="shist")
+    if not new_violations(ctx):
+        # very large figures of merit (targets near 2^36, exact in binary64 with the absolute residuals): thresholds,
+        # caps and guards on the running sum that ordinary values never reach
+        r = ctx.rng("sbig")
+        fits = [bigify(c) for c in gen_fit(r, 60, flagged_share=0.0) if py_verdict(c)[0] == "accept" and not known_classes(c)]
+        leg_fit(ctx, fits, tag="sbig")
+        leg_hist(ctx, [bigify(c) for c in gen_hist(r, 30, 9)], tag="sbigh")
     ctx.cov["search"] = True
 
 
@@ -1052,24 +1577,15 @@ def replay(ctx: Ctx, rp: dict) -> int:
     if kind == "ck":
         leg_ck(ctx, [case], tag="replay")
     elif kind == "fit":
-        def fr(x):
-            return Fraction(x).limit_denominator(1 << 20) if isinstance(x, float) else x
-        c = dict(case)
-        c["gain"], c["bias"] = fr(c["gain"]), fr(c["bias"])
-        c["pattern"] = [[None if v is None else fr(v) for v in row] for row in c["pattern"]]
-        c["targets"] = [[[[None if v is None else fr(v) for v in row] for row in pl] for pl in t] for t in c["targets"]]
-        if c.get("offsets") is not None:
-            c["offsets"] = [fr(v) for v in c["offsets"]]
-        if c.get("weights"):
-            if "scalar" in c["weights"]:
-                c["weights"] = dict(scalar=[fr(v) for v in c["weights"]["scalar"]])
-            else:
-                c["weights"] = dict(file=[[[[fr(v) for v in row] for row in pl] for pl in f] for f in c["weights"]["file"]])
-        leg_fit(ctx, [c], tag="replay")
+        leg_fit(ctx, [unjson_fit(case)], tag="replay")
+    elif kind == "hist":
+        leg_hist(ctx, [unjson_hist(case)], tag="replay", shrink=False)
     elif kind == "calib":
         leg_calib(ctx, [case])
-    bad = len(ctx.violations) > n0
-    for v in ctx.violations[n0:]:
+    # a calibration run shows several clauses at once (e.g. the open C11-resim): the replay is about its own clause
+    mine = [v for v in ctx.violations[n0:] if kind != "calib" or not rp.get("clause") or v.clause == rp["clause"]]
+    bad = bool(mine)
+    for v in mine:
         print("implementation now:", v.observed)
         print(v.what)
     for b in ctx.broken:
@@ -1093,18 +1609,30 @@ META = dict(
         "#processors: zip drops targets, refuted in general); (4) the model MEETS the specification used to judge the "
         "implementation outside the input classes of the three open findings (C11_model_meets_spec_partial; the full "
         "statement is refuted with witnesses for F6d, F6e, zip); (5) champion tracking min(previous, best of the evolution) "
-        "is non-increasing, a lower bound of everything met and an actually computed value. The model is tied to the code "
+        "is non-increasing, a lower bound of everything met and an actually computed value; (6) the problem object WITH its "
+        "mutable state (Model/FitnessHist.v: scalar attributes as registers, guarded writes / break / continue / return around "
+        "the accumulation, description regenerated from ModelFittingDataTree.fitness): for every history of operations on one "
+        "object (fitness of any vectors in any order, repeated, on copies, interleaved with other calls) and whatever earlier "
+        "calls left behind, every fitness is the stateless model's value at THAT vector, the same vector gets the same value "
+        "everywhere, and it is the declared sum over all targets (C11_fitness_history_independent, "
+        "C11_same_vector_same_fitness, C11_history_fitness_is_declared; for any description whose exits and returned "
+        "expressions read no register: C11_state_blind_is_pure). The model is tied to the code "
         "by evaluating it inside Coq against the real check_fit_ranges (exhaustive per dimension for small sizes), the "
         "three real fitness functions, problem.fitness(x) on integer-valued probe frames (exact; targets smaller/larger "
-        "than the frame in rows, columns and readout times) and real tiny calibrations (/champion/fitness non-increasing, "
-        "last value = problem.fitness(champion) = independent numpy recomputation); the implementation's outputs are "
-        "judged inside Coq against the specification."),
+        "than the frame in rows, columns and readout times), HISTORIES of evaluations on one problem object (good candidate "
+        "first, worse ones after, repeated and nearly equal vectors, evaluations on deep copies / pickle round trips, other "
+        "calls in between; 1..3 targets; every step judged against the history-free specification, equal vectors must get "
+        "equal values, the problem's data must be unchanged; small-scope exhaustive enumeration) and real tiny calibrations "
+        "(/champion/fitness non-increasing, last value = problem.fitness(champion) = independent numpy recomputation; EVERY "
+        "reported individual - the champion of every island after every evolution, every member of /best - re-evaluated on "
+        "a freshly built problem, exact equality); the implementation's outputs are judged inside Coq against the "
+        "specification."),
     level_note=(
         "Proved for all inputs: statements about the Gallina model. Established by correspondence (= testing): that the "
         "model's checker/constructor/fitness/pairing/weights behave like the Python on the generated cases; pygmo's "
         "champion tracking and the re-simulation are observed on real runs only (the returned /simulated data cannot be "
         "computed at all: C11-resim). Trusted: Coq kernel + vm_compute, translator/c11.py, the harness and driver, "
         "numpy/numba/xarray semantics on exact inputs. Seeding of calibration (C04/F1) is not covered."),
-    technique="Coq proof over generated checker / call-site / weights tables + inductive sum/champion theorems + in-Coq correspondence/spec evaluation",
+    technique="Coq proof over generated checker / call-site / weights tables and the generated description of the fitness method's state + inductive sum/history/champion theorems + in-Coq correspondence/spec evaluation",
     design_ref="DESIGN.md section 6, C11",
 )
